@@ -54,7 +54,9 @@ type Program struct {
 	// RefFields: "pkg.Struct" → field names of the reference tree (nil without an anchor table)
 	RefFields map[string]map[string]bool
 	// RefErrDisp: function id → callee key → error dispositions in the reference tree (errdisp.json)
-	RefErrDisp map[string]map[string][]string
+	// RefLockCover: function → "pkg.Struct.field" → locks the reference tree holds at every access
+	RefLockCover map[string]map[string][]string
+	RefErrDisp   map[string]map[string][]string
 }
 
 // Load loads ./... in dir. Any load or type error is returned as an error: an analysis that could
